@@ -16,6 +16,7 @@ type DocOpts struct {
 	MaxOps     int
 	Frags      bool
 	Dirs       bool
+	DirEvery   int // with Dirs: one selection in DirEvery carries directives (0 = 5)
 	Vars       bool
 	Aliases    bool
 	DupKeys    bool // allow the same response key twice in one scope (merge territory)
@@ -130,7 +131,11 @@ func (g *docGen) boolVar(val bool) model.VarRef {
 }
 
 func (g *docGen) dirs() []model.DirUse {
-	if !g.o.Dirs || g.r.Intn(5) != 0 {
+	every := 5
+	if g.o.DirEvery > 0 {
+		every = g.o.DirEvery
+	}
+	if !g.o.Dirs || g.r.Intn(every) != 0 {
 		return nil
 	}
 	var out []model.DirUse
